@@ -869,3 +869,24 @@ def _config_methods(w, cfg, pm):
     w.base[".par_slice"] = par_slice
     w.base[".param_set"] = param_set
     w.ext = None
+
+
+def pipeline_world(repo, reg, rec):
+    """World in which _nominal_and_modifiers_from_spec runs with the real nominal builder and the real modifier
+    builders; appliers, parameter finalisation and paramset creation are recorders."""
+    nbc = repo.cls(PDF, "_nominal_builder")
+    ext = listnp.externals()
+    ext.update({
+        "subscribe": lambda a, k: PyFunc(lambda a2, k2: None, "subscriber"), "get_backend": lambda a, k: (Obj("tensorlib"), None),
+        "_finalize_parameters_specs": lambda a, k: (rec.__setitem__("finalize_args", a) or {"REQ": True}),
+        "required_parset": lambda a, k: {"required": True},
+        "_create_parameters_from_spec": lambda a, k: (Obj("paramobjs"), [], []),
+    })
+    w = World(ext, region=AutoRegion(), module_env={"pyhf": Obj("pyhf", {"default_backend": Obj("default_backend")}), "events": Obj("events"), "exceptions": Obj("exceptions")})
+    w.add_class(nbc)
+    mset = {}
+    rec.setdefault("appliers", {})
+    for key, (b, cl) in sorted(reg.items()):
+        w.add_class(b)
+        mset[key] = (PyFunc(lambda a, k, b=b: w.new(b, a, k), b.name), PyFunc(lambda a, k, key=key: (rec["appliers"].__setitem__(key, (a, k)) or Obj(f"applier_{key}")), cl.name))
+    return w, mset
